@@ -39,6 +39,25 @@ func (lw *lineWriter) write(v interface{}) {
 	lw.w.Write(b)
 	lw.w.WriteByte('\n')
 	lw.n++
+	if flushEveryLine {
+		lw.w.Flush()
+	}
+}
+
+// VERIF_FLUSH=1: every trace line reaches the file at once (used when re-running a schedule that killed the process)
+var flushEveryLine = os.Getenv("VERIF_FLUSH") != ""
+
+// journal of the schedule being generated: the header, then every operation BEFORE it is executed, unbuffered,
+// so that a schedule that kills the process (runtime fault inside a library call) can be recovered and replayed
+type journal struct{ f *os.File }
+
+func (j *journal) write(v interface{}) {
+	if j == nil || j.f == nil {
+		return
+	}
+	b, err := json.Marshal(v)
+	fatal(err)
+	j.f.Write(append(b, '\n'))
 }
 
 func (lw *lineWriter) close() {
@@ -153,6 +172,12 @@ func cmdGen(args []string) {
 	if *schedp != "" {
 		sched = newLineWriter(*schedp)
 	}
+	var jr *journal
+	if *schedp != "" {
+		jf, err := os.Create(*schedp + ".journal")
+		fatal(err)
+		jr = &journal{f: jf}
+	}
 	for k := 0; k < *n; k++ {
 		rng := rand.New(rand.NewSource(*seed*1000003 + int64(k)))
 		h := Header{
@@ -220,6 +245,7 @@ func cmdGen(args []string) {
 		if h.TrackPay {
 			payTrack = true
 		}
+		jr.write(map[string]interface{}{"header": h})
 		ss := newSession(h, out)
 		x := ss.a
 		g := &generator{rng: rng, p: &p, x: x, ss: ss}
@@ -236,6 +262,7 @@ func cmdGen(args []string) {
 				runtime.GC()
 			}
 			op := g.next()
+			jr.write(map[string]interface{}{"op": op})
 			line := ss.step(op)
 			g.markClosed(op, line)
 			h.Ops = append(h.Ops, op)
